@@ -1,5 +1,5 @@
 """D-CONN pipeline (C22): Conn.tla (+ mutant), then scenarios validated by ConnTrace.tla."""
-import json, os
+import json, os, re
 from vlib import core, tracev
 
 
@@ -23,7 +23,13 @@ def run(ctx):
     if not stats and not rows:
         raise core.Infra("conn driver produced no events:\n" + o[-3000:])
     if not stats:
-        rows.append({"ev": "driver_failed", "seq": 0, "output": o[-1500:]})
+        # the test binary died. Only a panic raised inside the client itself is the real code's behaviour (e.g. a request answered
+        # twice closes a channel twice); anything else (harness panic, blocked bubble) is no verdict
+        m = re.search(r"^panic: (.*)$", o, re.M)
+        frames = [f.rsplit("(", 1)[0] for f in re.findall(r"^(github\.com/twmb/franz-go/pkg/kgo\.[^\n]*)", o[m.end():] if m else "", re.M)][:4]
+        if not (m and frames and "test timed out" not in m.group(1)):
+            raise core.Infra("conn driver died without a panic inside kgo:\n" + o[-3000:])
+        rows.append({"ev": "driver_failed", "seq": 0, "panic": m.group(1), "in": frames, "output": o[-600:]})
     accepted, rej = tracev.validate(ctx, "ConnTrace", "ConnTrace.cfg", "conn_trace.ndjson", rows, "conntrace")
     for s, line, why, ev in rej:
         sc = json.loads(s[0]["scenario"]) if s and "scenario" in s[0] else None
